@@ -363,7 +363,10 @@ pub fn run_into(ctx: &Ctx, focus: &str, col: &mut Collector) -> Result<()> {
 		// focus biases the top-level operator so each property exercises its own operator most
 		let depth = 1 + (i % 3) as u32;
 		let inner = gen_expr(&mut rng, depth, &mut idbase);
-		let e = match focus {
+		// C02 / C03 are about every operator: they rotate through the shapes of the operator-specific properties
+		let shape = match focus { "c02" | "c03" | "pipe" => ["plain", "c08", "c06", "c09", "plain", "c08"][i % 6], f => f };
+		let i = if shape != focus { i / 6 * 2 + (i % 6 == 5) as usize } else { i };
+		let e = match shape {
 			"c08" if i % 2 == 0 => { // 3-4 dense rectangles at one level: later sources fill non-rectangular holes
 				let z = rng.range(2, ZMAX as u64) as u8;
 				E::Over((0..rng.range(2, 4)).map(|_| { idbase += 2000; gen_rect_leaf(&mut rng, idbase, z) }).collect()) }
